@@ -609,6 +609,38 @@ def cbf(ctx, handlers, cs):
                "a contention timer is armed only when (source, SN) is not buffered yet" if ok else
                f"a contention timer is armed on a path where `{sem.cx(key)[:70]}` may already be buffered in {sem.cx(buf)}",
                f"{fi.module.rel}:{c.lineno}")
+    # the timer's own callback: Timer.cancel() cannot stop a timer whose wait has already elapsed, so the callback itself must
+    # re-broadcast ONLY when the copy is still in the buffer (decided on every path to the send: membership test, or the
+    # value popped from the buffer found not None)
+    for i, c in enumerate(timers):
+        tgt = None
+        if len(c.args) >= 2:
+            tgt = c.args[1]
+        for kw in c.keywords:
+            if kw.arg in ("function", "target"):
+                tgt = kw.value
+        cbs = [m for m in (fi.cls.methods.values() if fi.cls else []) if tgt is not None and dotted(tgt) == f"self.{m.name}"]
+        if not cbs:
+            raise AnalysisError("C06: the CBF timer's callback is not a method of the router")
+        cb = cbs[0]
+        sends = [x for x in P.calls_in(cb) if G.is_ll_send(P, cb, x)]
+        bufname = sem.cx(buf)
+        kparam = cb.params[1] if len(cb.params) > 1 else None
+        okc, npaths = bool(sends), 0
+        pops = {}
+        for n_ in ast.walk(cb.node):
+            if isinstance(n_, ast.Assign) and isinstance(n_.targets[0], ast.Name) and isinstance(n_.value, ast.Call) and \
+                    isinstance(n_.value.func, ast.Attribute) and n_.value.func.attr in ("pop", "get") and sem.cx(n_.value.func.value) == bufname:
+                pops[n_.targets[0].id] = n_
+        for snd in sends:
+            for pc in sem.path_conditions(cb.node, snd, kill_rebound=False):
+                npaths += 1
+                present = f"in({kparam},{bufname})" in pc or any(f"!is(None,{v})" in pc or f"truthy({v})" in pc for v in pops)
+                okc = okc and present
+        ctx.ob("C06.cbf", cb.short(), f"timer#{i}:expiry-sends-only-buffered", okc and npaths > 0,
+               f"the expiry callback re-broadcasts only on paths ({npaths}) that found the copy still buffered" if okc and npaths else
+               "the expiry callback re-broadcasts without checking that the copy is still buffered: a copy whose duplicate was overheard "
+               "while the timer was firing (cancel() comes too late) is transmitted anyway", cb.loc)
     ok, why = _cancel_on_present(ctx, fi, buf, key)
     ctx.ob("C06.cbf", con, "duplicate-cancels", ok,
            "a second reception of a buffered (source, SN): " + why, fi.loc)
